@@ -18,7 +18,7 @@ echo "suite=$suite with=$with without=$without"
 cd /verif
 echo "== check $pid against the change"
 VERIF_REPO=$wt ./check $pid > /tmp/seed/$name.check.log 2>&1; crc=$?; grep -E "VIOLATION|KNOWN|theorems" /tmp/seed/$name.check.log
-/verif/.build/translator /repo /verif/coq/Gen >/dev/null   # restore Gen for /repo
+/verif/tools/reset_repo.sh
 mkdir -p seeded/$name
 cp /tmp/seed/$name.diff seeded/$name/patch.diff
 rm -rf seeded/$name/demo; cp -r $wt/seed_demo seeded/$name/demo
